@@ -19,7 +19,7 @@ let show_fit (f : n list) : string =
   match f with [] -> "-" | _ -> String.concat "," (List.map hex_of_n f)
 
 let show_dump (t : table) : string =
-  let (sl, l) = dump t in
+  let (sl, l) = now_dump t in
   String.concat ";"
     (string_of_int (int_of_n sl) ::
      List.map (fun (i, s) ->
@@ -32,36 +32,45 @@ let fit_of p = List.map n_of_hex (drop 3 p)
 
 let table_script bits ops =
   let buf = Buffer.create 256 in
-  let t = ref (fresh (n_of_int bits)) in
+  let t = ref (now_fresh (n_of_int bits)) in
   List.iter (fun o ->
     let p = String.split_on_char ',' o in
     match (List.hd p).[0] with
-    | 'I' -> t := step !t (Insert (key_of p, fit_of p))
-    | 'F' -> Buffer.add_string buf ("f=" ^ show_fit (find !t (key_of p)) ^ " ")
-    | 'C' -> t := step !t Clear
-    | 'X' -> t := step !t (ClearOne (key_of p))
+    | 'I' -> t := now_step !t (Insert (key_of p, fit_of p))
+    | 'F' -> Buffer.add_string buf ("f=" ^ show_fit (now_find !t (key_of p)) ^ " ")
+    | 'C' -> t := now_step !t Clear
+    | 'X' -> t := now_step !t (ClearOne (key_of p))
     | 'S' ->
-        let (ok, t2) = load (save !t) (fresh !t.tbits) in
+        let (ok, t2) = now_load (now_save !t) (now_fresh !t.tbits) in
         Buffer.add_string buf
           (Printf.sprintf "s=%d|%s|%s " (if ok then 1 else 0) (show_dump !t) (show_dump t2));
         t := t2
     | 'W' -> t := warp !t (n_of_int (int_of_string (List.nth p 1)))
-    | 'N' -> t := clears_fast (nat_of_int 4) (n_of_int (int_of_string (List.nth p 1))) !t
+    | 'N' ->
+        let n = int_of_string (List.nth p 1) in
+        if n <= 1000 then (for _ = 1 to n do t := now_clear !t done)
+        else t := clears_fast (nat_of_int 4) (n_of_int n) !t
     | _ -> Buffer.add_string buf "BADOP ") ops;
   Buffer.add_string buf ("D=" ^ show_dump !t);
   Buffer.contents buf
 
 let proxy_script bits ops =
   let buf = Buffer.create 256 in
-  let t = ref (fresh (n_of_int bits)) in
+  let t = ref (now_fresh (n_of_int bits)) in
   List.iter (fun o ->
     let p = String.split_on_char ',' o in
     match (List.hd p).[0] with
     | 'E' ->
-        let ((f, called), t2) = proxy_eval !t (key_of p) (fit_of p) in
+        let ((f, called), t2) = now_proxy_eval !t (key_of p) (fit_of p) in
         Buffer.add_string buf (Printf.sprintf "e=%s/%d " (show_fit f) (if called then 1 else 0));
         t := t2
-    | 'C' -> t := clear !t
+    | 'C' -> t := now_clear !t
+    | 'S' ->
+        let m = n_of_int 4242 in
+        let (ok, t2) = now_proxy_load m (now_proxy_save m !t) (now_fresh !t.tbits) in
+        Buffer.add_string buf
+          (Printf.sprintf "s=%d|%s|%s " (if ok then 1 else 0) (show_dump !t) (show_dump t2));
+        t := t2
     | _ -> Buffer.add_string buf "BADOP ") ops;
   Buffer.add_string buf ("D=" ^ show_dump !t);
   Buffer.contents buf
